@@ -31,6 +31,7 @@ ApplyOp(T, r) ==
        [] r.op \in {"release", "releasedir"} -> ReleaseH(N, r.op, r.p, r.h, r.status)
        [] r.op \in {"read", "write", "flush", "fsync", "getattr_h"} -> UseH(N, r.op, r.p, r.h, r.status)
        [] r.op = "destroy" -> Destroy(N)
+       [] r.op = "init" -> Inited(N, r.status)
        [] OTHER -> N
 
 Apply(T, r) ==
